@@ -76,7 +76,19 @@ impl<C: Ctxt> Ctxt for Padded<C> {
     }
 }
 
+/// What stands behind a context instance: a real ThreadLocalCtxt, or one of the two contexts
+/// that store nothing (`emit::Empty` used as a `Ctxt`, `Option::<C>::None`).
+#[derive(Clone, Copy, PartialEq)]
+enum InstK {
+    Real,
+    Empty,
+    NoneOpt,
+}
+
+static EMPTY: emit::Empty = emit::Empty;
+
 struct Inst {
+    k: InstK,
     tl: ThreadLocalCtxt,
     tl_ref: &'static ThreadLocalCtxt,
     erased: &'static DynCtxt,
@@ -86,10 +98,35 @@ struct Inst {
 impl Inst {
     fn new(tl: ThreadLocalCtxt) -> Inst {
         Inst {
+            k: InstK::Real,
             tl,
             tl_ref: Box::leak(Box::new(tl)),
             erased: Box::leak(Box::new(tl) as Box<DynCtxt>),
             erased_boxed: Box::leak(Box::new(Padded(tl)) as Box<DynCtxt>),
+        }
+    }
+
+    /// `emit::Empty` as a context (also behind `dyn ErasedCtxt`, with an inline and a boxed frame)
+    fn empty() -> Inst {
+        let tl = ThreadLocalCtxt::new();      // never used
+        Inst {
+            k: InstK::Empty,
+            tl,
+            tl_ref: Box::leak(Box::new(tl)),
+            erased: Box::leak(Box::new(emit::Empty) as Box<DynCtxt>),
+            erased_boxed: Box::leak(Box::new(Padded(emit::Empty)) as Box<DynCtxt>),
+        }
+    }
+
+    /// `Option::<ThreadLocalCtxt>::None` as a context
+    fn none() -> Inst {
+        let tl = ThreadLocalCtxt::new();      // never used
+        Inst {
+            k: InstK::NoneOpt,
+            tl,
+            tl_ref: Box::leak(Box::new(tl)),
+            erased: Box::leak(Box::new(None::<ThreadLocalCtxt>) as Box<DynCtxt>),
+            erased_boxed: Box::leak(Box::new(Padded(None::<ThreadLocalCtxt>)) as Box<DynCtxt>),
         }
     }
 }
@@ -101,12 +138,33 @@ enum AnyFrame {
     Opt(Frame<Option<ThreadLocalCtxt>>),
     Bx(Frame<Box<ThreadLocalCtxt>>),
     Ar(Frame<std::sync::Arc<ThreadLocalCtxt>>),
+    Emp(Frame<emit::Empty>),
+    EmpRef(Frame<&'static emit::Empty>),
+}
+
+/// `on_frame!(frame, x => expr)`: the same expression for whatever context form the frame has.
+macro_rules! on_frame {
+    ($fr:expr, $x:ident => $e:expr) => {
+        match $fr {
+            AnyFrame::Plain($x) => $e,
+            AnyFrame::Ref($x) => $e,
+            AnyFrame::Dyn($x) => $e,
+            AnyFrame::Opt($x) => $e,
+            AnyFrame::Bx($x) => $e,
+            AnyFrame::Ar($x) => $e,
+            AnyFrame::Emp($x) => $e,
+            AnyFrame::EmpRef($x) => $e,
+        }
+    };
 }
 
 type Task = Pin<Box<dyn Future<Output = Leave> + Send>>;
 
 struct M03 {
-    insts: Vec<Inst>,
+    /// instances that exist before the program starts (None: kind "made", constructed by a model
+    /// thread during the program - see `dynamic`)
+    insts: Vec<Option<Inst>>,
+    dynamic: Mutex<HashMap<usize, &'static Inst>>,
     frames: Mutex<HashMap<u64, AnyFrame>>,
     tasks: Mutex<HashMap<u64, Task>>,
     salt: AtomicU64,
@@ -211,14 +269,20 @@ impl M03 {
         for (store, kind) in insts {
             if *store != 0 {
                 if let Some(i) = made.get(store) {
-                    out.push(Inst::new(i.tl));
+                    out.push(Some(Inst::new(i.tl)));
                     continue;
                 }
+            }
+            if kind == "made" {
+                out.push(None);
+                continue;
             }
             let inst = match kind.as_str() {
                 "shared" => Inst::new(ThreadLocalCtxt::shared()),
                 "new" => Inst::new(ThreadLocalCtxt::new()),
                 "default" => Inst::new(<ThreadLocalCtxt as Default>::default()),
+                "empty" => Inst::empty(),
+                "none" => Inst::none(),
                 "setup" => {
                     // the context of a runtime built the way applications do, in a fresh slot
                     let slot: &'static emit::runtime::AmbientSlot = Box::leak(Box::new(emit::runtime::AmbientSlot::new()));
@@ -234,9 +298,17 @@ impl M03 {
             if *store != 0 {
                 made.insert(*store, Inst::new(inst.tl));
             }
-            out.push(inst);
+            out.push(Some(inst));
         }
-        M03 { insts: out, frames: Mutex::new(HashMap::new()), tasks: Mutex::new(HashMap::new()), salt: AtomicU64::new(0) }
+        M03 { insts: out, dynamic: Mutex::new(HashMap::new()), frames: Mutex::new(HashMap::new()), tasks: Mutex::new(HashMap::new()), salt: AtomicU64::new(0) }
+    }
+
+    /// Instance number i (0-based), if it exists yet.
+    fn inst(&self, i: usize) -> Option<&Inst> {
+        match &self.insts[i] {
+            Some(inst) => Some(inst),
+            None => self.dynamic.lock().unwrap().get(&i).copied(),
+        }
     }
 
     fn salt(&self) -> u64 {
@@ -263,12 +335,36 @@ impl Machine for M03 {
         let op = step["op"].as_str().unwrap_or("");
         let salt = self.salt();
         match op {
+            "make" => {
+                // the instance is constructed here, on this model thread (a fresh OS thread per case:
+                // whatever the constructor keeps per thread starts from scratch on every one of them)
+                let i = step["c"].as_u64().unwrap() as usize - 1;
+                let tl = if (salt + i as u64) % 2 == 0 { ThreadLocalCtxt::new() } else { <ThreadLocalCtxt as Default>::default() };
+                let inst: &'static Inst = Box::leak(Box::new(Inst::new(tl)));
+                if self.dynamic.lock().unwrap().insert(i, inst).is_some() || self.insts[i].is_some() {
+                    tool_error("instance made twice");
+                }
+                reply_ok();
+                None
+            }
             "open" => {
                 let f = step["f"].as_u64().unwrap();
-                let inst = &self.insts[step["c"].as_u64().unwrap() as usize - 1];
+                let inst = self.inst(step["c"].as_u64().unwrap() as usize - 1).unwrap_or_else(|| tool_error("frame opened on an instance that does not exist yet"));
                 let kind = step["kind"].as_str().unwrap();
                 let props = props_vec(&step["props"]);
-                let fr = match (salt + f) % 7 {
+                let fr = match inst.k {
+                    InstK::Empty => match (salt + f) % 4 {
+                        0 => AnyFrame::Emp(open_generic(emit::Empty, kind, &props)),
+                        1 => AnyFrame::EmpRef(open_generic(&EMPTY, kind, &props)),
+                        2 => AnyFrame::Dyn(open_generic(inst.erased, kind, &props)),
+                        _ => AnyFrame::Dyn(open_generic(inst.erased_boxed, kind, &props)),
+                    },
+                    InstK::NoneOpt => match (salt + f) % 3 {
+                        0 => AnyFrame::Opt(open_generic(None::<ThreadLocalCtxt>, kind, &props)),
+                        1 => AnyFrame::Dyn(open_generic(inst.erased, kind, &props)),
+                        _ => AnyFrame::Dyn(open_generic(inst.erased_boxed, kind, &props)),
+                    },
+                    InstK::Real => match (salt + f) % 7 {
                     0 => AnyFrame::Plain(open_generic(inst.tl, kind, &props)),
                     1 => AnyFrame::Ref(open_generic(inst.tl_ref, kind, &props)),
                     2 => AnyFrame::Dyn(open_generic(inst.erased, kind, &props)),
@@ -276,6 +372,7 @@ impl Machine for M03 {
                     4 => AnyFrame::Opt(open_generic(Some(inst.tl), kind, &props)),
                     5 => AnyFrame::Bx(open_generic(Box::new(inst.tl), kind, &props)),
                     _ => AnyFrame::Ar(open_generic(std::sync::Arc::new(inst.tl), kind, &props)),
+                    },
                 };
                 self.put_frame(f, fr);
                 reply_ok();
@@ -285,34 +382,13 @@ impl Machine for M03 {
                 let f = step["f"].as_u64().unwrap();
                 let nk = NKEYS.load(Ordering::Relaxed) as usize;
                 let mut fr = self.take_frame(f);
-                let sees = match &mut fr {
-                    AnyFrame::Plain(x) => x.with(|p| read_props(p, nk)),
-                    AnyFrame::Ref(x) => x.with(|p| read_props(p, nk)),
-                    AnyFrame::Dyn(x) => x.with(|p| read_props(p, nk)),
-                    AnyFrame::Opt(x) => x.with(|p| read_props(p, nk)),
-                    AnyFrame::Bx(x) => x.with(|p| read_props(p, nk)),
-                    AnyFrame::Ar(x) => x.with(|p| read_props(p, nk)),
-                };
+                let sees = on_frame!(&mut fr, x => x.with(|p| read_props(p, nk)));
                 // a panic inside the callback, caught on the spot, must not cost the frame anything
                 let with_panic = |fr: &mut AnyFrame| {
-                    let _ = catching(|| match fr {
-                        AnyFrame::Plain(x) => x.with(|_| panic!("probe")),
-                        AnyFrame::Ref(x) => x.with(|_| panic!("probe")),
-                        AnyFrame::Dyn(x) => x.with(|_| panic!("probe")),
-                        AnyFrame::Opt(x) => x.with(|_| panic!("probe")),
-                        AnyFrame::Bx(x) => x.with(|_| panic!("probe")),
-                        AnyFrame::Ar(x) => x.with(|_| panic!("probe")),
-                    });
+                    let _ = catching(|| on_frame!(&mut *fr, x => x.with(|_| panic!("probe"))));
                 };
                 with_panic(&mut fr);
-                let again = match &mut fr {
-                    AnyFrame::Plain(x) => x.with(|p| read_props(p, nk)),
-                    AnyFrame::Ref(x) => x.with(|p| read_props(p, nk)),
-                    AnyFrame::Dyn(x) => x.with(|p| read_props(p, nk)),
-                    AnyFrame::Opt(x) => x.with(|p| read_props(p, nk)),
-                    AnyFrame::Bx(x) => x.with(|p| read_props(p, nk)),
-                    AnyFrame::Ar(x) => x.with(|p| read_props(p, nk)),
-                };
+                let again = on_frame!(&mut fr, x => x.with(|p| read_props(p, nk)));
                 // Frame::inner: what the idle frame object itself stores (level B's `held`; NoTrace says
                 // it is the frame's own properties) - where the raw frame type can be read
                 let inner = match &fr {
@@ -321,6 +397,8 @@ impl Machine for M03 {
                     AnyFrame::Opt(x) => read_props(x.inner(), nk),
                     AnyFrame::Bx(x) => read_props(x.inner(), nk),
                     AnyFrame::Ar(x) => read_props(x.inner(), nk),
+                    AnyFrame::Emp(x) => read_props(x.inner(), nk),
+                    AnyFrame::EmpRef(x) => read_props(x.inner(), nk),
                     AnyFrame::Dyn(_) => sees.clone(),
                 };
                 self.put_frame(f, fr);
@@ -344,18 +422,13 @@ impl Machine for M03 {
                         AnyFrame::Opt(x) => { let (x, r) = guard_generic(x, variant, body); (AnyFrame::Opt(x), r) }
                         AnyFrame::Bx(x) => { let (x, r) = guard_generic(x, variant, body); (AnyFrame::Bx(x), r) }
                         AnyFrame::Ar(x) => { let (x, r) = guard_generic(x, variant, body); (AnyFrame::Ar(x), r) }
+                        AnyFrame::Emp(x) => { let (x, r) = guard_generic(x, variant, body); (AnyFrame::Emp(x), r) }
+                        AnyFrame::EmpRef(x) => { let (x, r) = guard_generic(x, variant, body); (AnyFrame::EmpRef(x), r) }
                     };
                     self.put_frame(f, fr);
                     rethrow(r)
                 } else {
-                    match fr {
-                        AnyFrame::Plain(x) => call_generic(x, variant, body),
-                        AnyFrame::Ref(x) => call_generic(x, variant, body),
-                        AnyFrame::Dyn(x) => call_generic(x, variant, body),
-                        AnyFrame::Opt(x) => call_generic(x, variant, body),
-                        AnyFrame::Bx(x) => call_generic(x, variant, body),
-                        AnyFrame::Ar(x) => call_generic(x, variant, body),
-                    }
+                    on_frame!(fr, x => call_generic(x, variant, body))
                 };
                 match leave {
                     Leave::Exit(_) => {
@@ -386,14 +459,7 @@ impl Machine for M03 {
                     }
                 }
                 let how = salt / 7 + f;
-                match self.take_frame(f) {
-                    AnyFrame::Plain(x) => dispose(x, how),
-                    AnyFrame::Ref(x) => dispose(x, how),
-                    AnyFrame::Dyn(x) => dispose(x, how),
-                    AnyFrame::Opt(x) => dispose(x, how),
-                    AnyFrame::Bx(x) => dispose(x, how),
-                    AnyFrame::Ar(x) => dispose(x, how),
-                }
+                on_frame!(self.take_frame(f), x => dispose(x, how));
                 reply_ok();
                 None
             }
@@ -408,14 +474,7 @@ impl Machine for M03 {
                 let f = step["f"].as_u64().unwrap();
                 let k = step["k"].as_u64().unwrap();
                 let inner = ScriptFuture { m: self };
-                let task: Task = match self.take_frame(f) {
-                    AnyFrame::Plain(x) => Box::pin(x.in_future(inner)),
-                    AnyFrame::Ref(x) => Box::pin(x.in_future(inner)),
-                    AnyFrame::Dyn(x) => Box::pin(x.in_future(inner)),
-                    AnyFrame::Opt(x) => Box::pin(x.in_future(inner)),
-                    AnyFrame::Bx(x) => Box::pin(x.in_future(inner)),
-                    AnyFrame::Ar(x) => Box::pin(x.in_future(inner)),
-                };
+                let task: Task = on_frame!(self.take_frame(f), x => Box::pin(x.in_future(inner)));
                 self.tasks.lock().unwrap().insert(k, task);
                 reply_ok();
                 None
@@ -452,7 +511,15 @@ impl Machine for M03 {
         let nk = NKEYS.load(Ordering::Relaxed) as usize;
         let salt = self.salt();
         let mut out = Vec::new();
-        for (i, inst) in self.insts.iter().enumerate() {
+        for i in 0..self.insts.len() {
+            let Some(inst) = self.inst(i) else {
+                out.push(Value::Null);      // not constructed yet: nothing to look through
+                continue;
+            };
+            if inst.k != InstK::Real {
+                out.push(observe_inert(inst, salt + i as u64, nk));
+                continue;
+            }
             // enumeration through one wrapper, keyed lookup through another
             let en = match (salt + i as u64) % 4 {
                 0 => inst.tl.with_current(|p| read_props(p, nk)),
@@ -501,7 +568,11 @@ impl Machine for M03 {
         which.dedup();
         let mut probes = Vec::new();
         for i in which {
-            let inst = &self.insts[i];
+            let Some(inst) = self.inst(i) else { continue };
+            if inst.k != InstK::Real {
+                probes.push(probe_inert(inst, i, salt, nk));
+                continue;
+            }
             let nested = inst.tl.with_current(|outer| {
                 let outer_seen = read_props(outer, nk);
                 let inner = match salt % 3 {
@@ -536,6 +607,73 @@ impl Machine for M03 {
     }
 }
 
+/// The event emitted through context `c` and the properties it carries.
+fn event_through<C: Ctxt>(c: C, nk: usize) -> Value {
+    let seen: Mutex<Value> = Mutex::new(Value::Null);
+    emit_core::emit(
+        emit::emitter::from_fn(|evt| {
+            *seen.lock().unwrap() = read_props(evt.props(), nk);
+        }),
+        emit::Empty,
+        c,
+        emit::Empty,
+        emit::Event::new(emit::Path::new_raw("vh"), emit::Template::literal("obs"), emit::Empty, emit::Empty),
+    );
+    seen.into_inner().unwrap()
+}
+
+/// What a context that stores nothing shows (through every form it can be used in).
+fn observe_inert(inst: &Inst, rot: u64, nk: usize) -> Value {
+    let (en, get, evt) = match inst.k {
+        InstK::Empty => (
+            match rot % 3 {
+                0 => emit::Empty.with_current(|p| read_props(p, nk)),
+                1 => (&EMPTY).with_current(|p| read_props(p, nk)),
+                _ => inst.erased.with_current(|p| read_props(p, nk)),
+            },
+            match rot % 2 {
+                0 => inst.erased_boxed.with_current(|p| get_props(p, nk, false)),
+                _ => emit::Empty.with_current(|p| get_props(p, nk, true)),
+            },
+            if rot % 2 == 0 { event_through(emit::Empty, nk) } else { event_through(inst.erased, nk) },
+        ),
+        _ => (
+            match rot % 2 {
+                0 => None::<ThreadLocalCtxt>.with_current(|p| read_props(p, nk)),
+                _ => inst.erased.with_current(|p| read_props(p, nk)),
+            },
+            match rot % 2 {
+                0 => inst.erased_boxed.with_current(|p| get_props(p, nk, false)),
+                _ => None::<ThreadLocalCtxt>.with_current(|p| get_props(p, nk, true)),
+            },
+            if rot % 2 == 0 { event_through(None::<ThreadLocalCtxt>, nk) } else { event_through(inst.erased_boxed, nk) },
+        ),
+    };
+    json!({"enum": en, "get": get, "evt": evt})
+}
+
+/// The nested / after-a-caught-panic probes of `observe_acting` for a context that stores nothing.
+fn probe_inert(inst: &Inst, i: usize, salt: u64, nk: usize) -> Value {
+    fn nested<C: Ctxt + Copy>(c: C, other: &'static DynCtxt, nk: usize) -> Value {
+        c.with_current(|outer| {
+            let outer_seen = read_props(outer, nk);
+            let inner = other.with_current(|p| read_props(p, nk));
+            let opened = Frame::current(c).with(|p| read_props(p, nk));
+            let root = Frame::root(c, [("a", 1i64)]).with(|p| read_props(p, nk));
+            let ev = event_through(c, nk);
+            json!({"outer": outer_seen, "inner": inner, "opened inside": opened, "root frame opened inside": root, "event inside": ev})
+        })
+    }
+    let n = match (inst.k, salt % 2) {
+        (InstK::Empty, 0) => nested(emit::Empty, inst.erased_boxed, nk),
+        (InstK::NoneOpt, 0) => nested(None::<ThreadLocalCtxt>, inst.erased_boxed, nk),
+        _ => nested(inst.erased, inst.erased_boxed, nk),
+    };
+    let _ = catching(|| inst.erased.with_current(|_| panic!("probe")));
+    let after = inst.erased_boxed.with_current(|p| read_props(p, nk));
+    json!({"inst": i, "nested": n, "after a caught panic in with_current": after})
+}
+
 fn main() {
     let args: Vec<String> = std::env::args().collect();
     if args.len() < 4 {
@@ -561,6 +699,7 @@ fn main() {
         |m, no, case| {
             let m: &'static M03 = *m;
             m.salt.store(no as u64, Ordering::Relaxed);
+            m.dynamic.lock().unwrap().clear();
             m.frames.lock().unwrap().clear();
             m.tasks.lock().unwrap().clear();
             LIVE.store(0, Ordering::SeqCst);
@@ -610,6 +749,13 @@ fn main() {
                     }
                     let o = o.get("obs").unwrap_or(o);
                     for (i, io) in o.as_array().map(|a| a.as_slice()).unwrap_or(&[]).iter().enumerate() {
+                        if io.is_null() {
+                            // the instance does not exist yet (the specification agrees: step.made[i] = 0)
+                            if step["made"][i].as_u64().unwrap_or(1) != 0 {
+                                tool_error("an instance the specification says exists was not observed");
+                            }
+                            continue;
+                        }
                         for via in ["enum", "get", "evt"] {
                             if io[via] != want[i] {
                                 return Some(json!({"what": "ambient properties differ from the innermost active frame's",
